@@ -92,8 +92,8 @@ Lemma sift : forall fuel l p n lo,
     (forall j, (lo <= j < n)%nat -> hp l' n j) /\ within l l' lo n.
 Proof.
   induction fuel as [|f IH]; intros l p n lo Hn Hlo Hfuel [Hex Hgr]; cbn [heapify_min].
-  - split; [|apply within_refl]. intros j Hj. destruct (Nat.eq_dec j p) as [->|Hne]; [|apply Hex; assumption].
-    split; intros; lia.
+  - cbv zeta. split; [|apply within_refl]. intros j Hj. destruct (Nat.eq_dec j p) as [->|Hne]; [|apply Hex; assumption].
+    unfold hp. split; intros; lia.
   - cbv zeta.
     set (left := (2 * p + 1)%nat). set (right := (2 * p + 2)%nat).
     set (s1 := if Nat.ltb left n && (la l left <? la l p) then left else p).
@@ -115,10 +115,7 @@ Proof.
     + apply Nat.eqb_neq in Eq.
       assert (Hc : (s2 = left \/ s2 = right) /\ (s2 < n)%nat /\ la l s2 < la l p
                    /\ ((left < n)%nat -> la l s2 <= la l left) /\ ((right < n)%nat -> la l s2 <= la l right)).
-      { unfold left, right in *. destruct Hs1 as [[E1 H1]|[E1 [H1 H1']]]; destruct Hs2 as [[E2 H2]|[E2 [H2 H2']]]; rewrite ?E1, ?E2 in *; try lia.
-        - repeat split; try lia; intros; try lia. specialize (H1 H). lia.
-        - repeat split; try lia; intros; try lia. specialize (H2 H). lia.
-        - repeat split; try lia. }
+      { unfold left, right in *. destruct Hs1 as [[E1 H1]|[E1 [H1 H1']]]; destruct Hs2 as [[E2 H2]|[E2 [H2 H2']]]; subst s1 s2; rewrite ?E1, ?E2 in *; try lia; repeat split; intros; try lia. }
       destruct Hc as (Hwhich & Hcn & Hlt & Hle1 & Hle2).
       assert (Hpn : (p < n)%nat) by (unfold left, right in *; lia).
       assert (Hw : within l (swap l p s2) lo n) by (apply within_swap; unfold left, right in *; lia).
@@ -155,4 +152,127 @@ Proof.
       assert (Hfu : (n <= s2 + f)%nat) by (unfold left, right in *; lia).
       destruct (IH (swap l p s2) s2 n lo Hlen Hlo' Hfu Hex') as [G1 G2].
       split; [exact G1 | eapply within_trans; eassumption].
+Qed.
+
+Lemma within_weaken : forall l l' lo lo' n, within l l' lo n -> (lo' <= lo)%nat -> within l l' lo' n.
+Proof.
+  intros l l' lo lo' n (A1 & A2 & A3 & A4) Hle. repeat split; try assumption.
+  - intros j Hj. apply A3. lia.
+  - intros a Ha. destruct (le_lt_dec lo a) as [H|H].
+    + destruct (A4 a) as [a' [Ha' E]]; [lia|]. exists a'. split; [lia|assumption].
+    + exists a. split; [lia|]. apply A3. lia.
+Qed.
+
+Lemma build_from_heap : forall k l n,
+    (n <= length l)%nat -> (forall j, (k <= j < n)%nat -> hp l n j) ->
+    (forall j, (j < n)%nat -> hp (build_from k l n) n j) /\ within l (build_from k l n) 0 n.
+Proof.
+  induction k as [|k IH]; intros l n Hn Hh; cbn [build_from].
+  - split; [intros j Hj; apply Hh; lia | apply within_refl].
+  - assert (Hex : heap_ex l n k k).
+    { split; [intros j Hj Hne; apply Hh; lia | intros q c Hq Hpar; lia]. }
+    destruct (sift n l k n k Hn (le_n k) ltac:(lia) Hex) as [G1 G2].
+    destruct G2 as (L1 & L2 & L3 & L4).
+    destruct (IH (heapify_min n l k n) n ltac:(lia) G1) as [H1 H2].
+    split; [exact H1|]. eapply within_trans; [|exact H2].
+    apply (within_weaken l _ k 0 n); [repeat split; assumption | lia].
+Qed.
+
+Lemma build_min_heap_ok : forall l,
+    (forall j, (j < length l)%nat -> hp (build_min_heap l) (length l) j) /\ within l (build_min_heap l) 0 (length l).
+Proof.
+  intros l. unfold build_min_heap. apply build_from_heap; [lia|].
+  intros j Hj. pose proof (Nat.div_mod (length l) 2 ltac:(lia)). pose proof (Nat.mod_upper_bound (length l) 2 ltac:(lia)).
+  unfold hp. split; intros; lia.
+Qed.
+
+Lemma child_cases : forall j, (0 < j)%nat -> exists q, (j = 2 * q + 1 \/ j = 2 * q + 2)%nat.
+Proof.
+  induction j as [|j IH]; intros H; [lia|]. destruct j as [|j']; [exists 0%nat; lia|].
+  destruct (IH ltac:(lia)) as [q [E|E]]; [exists q; lia | exists (S q); lia].
+Qed.
+
+Lemma root_min : forall l m, (forall j, (j < m)%nat -> hp l m j) -> forall j, (j < m)%nat -> la l 0 <= la l j.
+Proof.
+  intros l m Hh j. induction j as [j IH] using lt_wf_ind. intros Hj.
+  destruct j as [|j']; [lia|]. destruct (child_cases (S j') ltac:(lia)) as [q [E|E]].
+  - assert (Hq : (q < S j')%nat) by lia. specialize (IH q Hq ltac:(lia)).
+    destruct (Hh q ltac:(lia)) as [H1 _]. rewrite E. specialize (H1 ltac:(lia)). lia.
+  - assert (Hq : (q < S j')%nat) by lia. specialize (IH q Hq ltac:(lia)).
+    destruct (Hh q ltac:(lia)) as [_ H2]. rewrite E. specialize (H2 ltac:(lia)). lia.
+Qed.
+
+Definition ext_inv (l0 l : list cent) (m : nat) : Prop :=
+  length l = length l0 /\ Permutation l0 l /\ (forall j, (j < m)%nat -> hp l m j)
+  /\ (forall a b, (a < m)%nat -> (m <= b < length l)%nat -> la l b <= la l a).
+
+Lemma la_nth_eq : forall l l' a b, nth a l' cdefault = nth b l cdefault -> la l' a = la l b.
+Proof. intros. unfold la. rewrite H. reflexivity. Qed.
+
+Lemma extract_inv : forall k i l0 l,
+    (i + k <= length l)%nat -> (k = 0 \/ i + k < length l + 0 \/ True)%nat ->
+    ext_inv l0 l (length l - i) -> (i + k < length l \/ k = 0)%nat ->
+    ext_inv l0 (extract k i l) (length l - i - k).
+Proof.
+  induction k as [|k IH]; intros i l0 l Hik _ Hinv Hlt; cbn [extract].
+  - replace (length l - i - 0)%nat with (length l - i)%nat by lia. assumption.
+  - destruct Hinv as (I1 & I2 & I3 & I4).
+    set (m := (length l - i)%nat) in *.
+    assert (Hm : (2 <= m)%nat) by (unfold m; lia).
+    replace (length l - 1 - i)%nat with (m - 1)%nat by (unfold m; lia).
+    set (l1 := swap l 0 (m - 1)).
+    assert (Hl1 : length l1 = length l) by apply length_swap.
+    assert (Hex : heap_ex l1 (m - 1) 0 0).
+    { split; [|intros q c Hq Hpar; lia].
+      intros j Hj Hne. destruct (I3 j ltac:(lia)) as [H1 H2]. unfold hp, l1.
+      rewrite !la_swap by (unfold m in *; lia).
+      assert (E1 : (j =? m - 1)%nat = false) by (apply Nat.eqb_neq; lia).
+      assert (E2 : (j =? 0)%nat = false) by (apply Nat.eqb_neq; lia). rewrite E1, E2.
+      split; intros Hc.
+      - assert (E3 : (2 * j + 1 =? m - 1)%nat = false) by (apply Nat.eqb_neq; lia).
+        assert (E4 : (2 * j + 1 =? 0)%nat = false) by (apply Nat.eqb_neq; lia). rewrite E3, E4. apply H1. lia.
+      - assert (E3 : (2 * j + 2 =? m - 1)%nat = false) by (apply Nat.eqb_neq; lia).
+        assert (E4 : (2 * j + 2 =? 0)%nat = false) by (apply Nat.eqb_neq; lia). rewrite E3, E4. apply H2. lia. }
+    destruct (sift (length l) l1 0 (m - 1) 0 ltac:(unfold m in *; lia) (le_n 0) ltac:(unfold m in *; lia) Hex) as [G1 G2].
+    set (l2 := heapify_min (length l) l1 0 (m - 1)) in *.
+    destruct G2 as (L1 & L2 & L3 & L4).
+    assert (Hl2 : length l2 = length l) by congruence.
+    assert (Hnew : ext_inv l0 l2 (length l2 - S i)).
+    { replace (length l2 - S i)%nat with (m - 1)%nat by (unfold m; lia).
+      split; [congruence|]. split; [eapply Permutation_trans; [exact I2|]; eapply Permutation_trans; [|exact L2]; apply swap_perm; unfold m in *; lia|].
+      split; [intros j Hj; apply G1; lia|].
+      intros a b Ha Hb.
+      destruct (L4 a ltac:(lia)) as [a' [Ha' Ea]].
+      rewrite (la_nth_eq l1 l2 a a' Ea). rewrite (la_nth_eq l1 l2 b b (L3 b ltac:(lia))).
+      unfold l1. rewrite !la_swap by (unfold m in *; lia).
+      pose proof (root_min l m I3) as RM.
+      destruct (b =? m - 1)%nat eqn:Eb.
+      - destruct (a' =? m - 1)%nat eqn:E1; [apply Nat.eqb_eq in E1; lia|].
+        destruct (a' =? 0)%nat; apply RM; lia.
+      - apply Nat.eqb_neq in Eb. destruct (b =? 0)%nat eqn:Eb0; [apply Nat.eqb_eq in Eb0; lia|].
+        destruct (a' =? m - 1)%nat eqn:E1; [apply Nat.eqb_eq in E1; lia|].
+        destruct (a' =? 0)%nat; apply I4; unfold m in *; lia. }
+    specialize (IH (S i) l0 l2 ltac:(lia) (or_intror (or_intror I)) Hnew ltac:(lia)).
+    replace (m - S k)%nat with (length l2 - S i - k)%nat by (unfold m; lia). exact IH.
+Qed.
+
+Lemma select_oldest_proof : forall entries k,
+    (k < length entries)%nat ->
+    let h := extract k 0 (build_min_heap entries) in
+    let m := (length entries - k)%nat in
+    select_oldest entries k = skipn m h
+    /\ Permutation entries h /\ length h = length entries
+    /\ (forall a b, (a < m)%nat -> (m <= b < length entries)%nat -> la h b <= la h a).
+Proof.
+  intros entries k Hk h m.
+  destruct (build_min_heap_ok entries) as [B1 (B2 & B3 & _ & _)].
+  assert (Hinv0 : ext_inv entries (build_min_heap entries) (length (build_min_heap entries) - 0)).
+  { rewrite B2, Nat.sub_0_r. split; [exact B2|]. split; [exact B3|]. split; [exact B1|]. intros a b Ha Hb. rewrite B2 in Hb. lia. }
+  assert (Ha1 : (0 + k <= length (build_min_heap entries))%nat) by (rewrite B2; lia).
+  assert (Ha2 : (0 + k < length (build_min_heap entries) \/ k = 0)%nat) by (rewrite B2; lia).
+  destruct (extract_inv k 0 entries (build_min_heap entries) Ha1 (or_intror (or_intror I)) Hinv0 Ha2) as (E1 & E2 & E3 & E4).
+  fold h in E1, E2, E3, E4. rewrite B2, Nat.sub_0_r in E3, E4. fold m in E3, E4.
+  repeat split; try assumption.
+  - unfold select_oldest. apply Nat.ltb_lt in Hk. rewrite Hk. reflexivity.
+  - intros a b Ha Hb. apply E4; [assumption|]. rewrite E1. assumption.
 Qed.
